@@ -88,6 +88,10 @@ fn main() {
         "hostile" => hostile::hostile(&mut out, &mut rng, &root, thorough),
         #[cfg(feature = "alloc")]
         "threads" => hostile::threads(&mut out, seed, thorough),
+        // run under strace by tools/special_c15.py: every file-system path touched between the markers is attributed
+        // to the call named by the marker
+        #[cfg(feature = "std")]
+        "ambient" => hostile::ambient(&mut out),
         _ => {
             eprintln!("unknown group {}", group);
             std::process::exit(2);
